@@ -569,8 +569,20 @@ class FromKafkaBatched(Source):
                 else:
                     new_partitions = len(kafka_cluster_metadata.topics[self.topic].partitions)
                 if new_partitions > self.npartitions:
-                    self.positions.extend([-1001] * (new_partitions - self.npartitions))
-                    self.npartitions = new_partitions
+                    # start the partitions found now at the offset the group
+                    # has committed for them, like the ones known from the start
+                    new_tps = [ck.TopicPartition(self.topic, partition)
+                               for partition in range(self.npartitions, new_partitions)]
+                    try:
+                        committed = self.consumer.committed(new_tps, timeout=1)
+                    except ck.KafkaException:
+                        # try again in the next cycle
+                        pass
+                    else:
+                        self.positions.extend([-1001] * (new_partitions - self.npartitions))
+                        for tp in committed:
+                            self.positions[tp.partition] = tp.offset
+                        self.npartitions = new_partitions
 
             for partition in range(self.npartitions):
                 tp = ck.TopicPartition(self.topic, partition, 0)
